@@ -308,7 +308,7 @@ pub fn prop() -> Prop<CrashCase> {
             "workload is single threaded with merge policy never, so the recorded call order is the program order",
         ],
         needs_shim: true,
-        budget: |t| t.pick(1600, 40_000),
+        budget: |t| t.pick(4800, 60000),
         shards: |_| 16,
         strategy,
         exec,
